@@ -21,3 +21,80 @@ package hessian
 //@   let fits     = tagAvail && G.isInt(tag) && body + G.intRest(tag) <= len(@in)
 //@   ensures [C03,C07,C01:int-any-form] fits ==> err == nil && result0 == G.decIntT(tag, @in, body) && @pos == body + G.intRest(tag)
 //@   ensures [C14,C03:int-reject]       !fits ==> err != nil
+
+//@ func intTag
+//@   pure
+//@   ensures [C03,C01:intTag] result == G.isInt(tag)
+
+//@ func longTag
+//@   pure
+//@   ensures [C03,C01:longTag] result == G.isLong(tag)
+
+//@ func encodeLong
+//@   pure
+//@   ensures [C07,C02:long-wf]      G.longAt(result, 0) && len(result) == 1 + G.longRest(result[0])
+//@   ensures [C07,C01:long-denotes] G.decLong(result, 0) == value
+//@   ensures [C07:long-shortest]    len(result) == G.longLen(value)
+
+//@ func decodeLongValue
+//@   requires flag == -1 || (0 <= flag && flag <= 255)
+//@   assigns @pos, @E
+//@   let tagAvail = flag != -1 || old(@pos) < len(@in)
+//@   let tag      = ite(flag == -1, @in[old(@pos)], byte(flag))
+//@   let body     = ite(flag == -1, old(@pos) + 1, old(@pos))
+//@   let fits     = tagAvail && G.isLong(tag) && body + G.longRest(tag) <= len(@in)
+//@   ensures [C03,C07,C01:long-any-form] fits ==> err == nil && result0 == G.decLongT(tag, @in, body) && @pos == body + G.longRest(tag)
+//@   ensures [C14,C03:long-reject]       !fits ==> err != nil
+
+//@ func encodeBoolean
+//@   pure
+//@   ensures [C02,C01:bool-wf] len(result) == 1 && result[0] == ite(value, 'T', 'F')
+
+//@ func decodeBooleanValue
+//@   requires flag == -1 || (0 <= flag && flag <= 255)
+//@   assigns @pos, @E
+//@   let tagAvail = flag != -1 || old(@pos) < len(@in)
+//@   let tag      = ite(flag == -1, @in[old(@pos)], byte(flag))
+//@   let body     = ite(flag == -1, old(@pos) + 1, old(@pos))
+//@   ensures [C03,C01:bool-any-form] tagAvail && G.isBool(tag) ==> err == nil && result0 == (tag == 'T') && @pos == body
+//@   ensures [C14,C03:bool-reject]   !(tagAvail && G.isBool(tag)) ==> err != nil
+
+//@ func encodeDouble
+//@   assigns @E
+//@   ensures [C08,C13:double-no-error] err == nil
+//@   ensures [C08,C02:double-wf]       err == nil ==> G.doubleAt(result0, 0) && len(result0) == 1 + G.doubleRest(result0[0])
+//@   ensures [C08,C01:double-denotes]  err == nil ==> G.sameNum(G.decDouble(result0, 0), value)
+//@   ensures [C08:double-shortest]     err == nil && !isnan(value) ==> len(result0) == G.doubleLen(value)
+
+//@ func decodeDoubleValue
+//@   requires flag == -1 || (0 <= flag && flag <= 255)
+//@   assigns @pos, @E
+//@   let tagAvail = flag != -1 || old(@pos) < len(@in)
+//@   let tag      = ite(flag == -1, @in[old(@pos)], byte(flag))
+//@   let body     = ite(flag == -1, old(@pos) + 1, old(@pos))
+//@   let fits     = tagAvail && G.isDouble(tag) && body + G.doubleRest(tag) <= len(@in)
+//@   ensures [C03,C08,C01:double-any-form] fits ==> err == nil && same(result0, G.decDoubleT(tag, @in, body)) && @pos == body + G.doubleRest(tag)
+//@   ensures [C14,C03:double-reject]       !fits ==> err != nil
+
+//@ func dateTag
+//@   pure
+//@   ensures [C03,C01:dateTag] result == G.isDate(tag)
+
+//@ func encodeDate
+//@   requires T.valid(date)
+//@   pure
+//@   ensures [C10:date-zero-null]      T.iszero(date) ==> len(result) == 1 && result[0] == 'N'
+//@   ensures [C10,C02:date-wf]         !T.iszero(date) ==> G.dateAt(result, 0) && len(result) == 1 + G.dateRest(result[0])
+//@   ensures [C10,C01:date-roundtrip]  !T.iszero(date) ==> T.close(L.decDateT(result[0], result, 1), date)
+//@   ensures [C02:date-denotes-2.0]    !T.iszero(date) ==> T.close(G.decDate(result, 0), date)
+
+//@ func decodeDateValue
+//@   requires flag == -1 || (0 <= flag && flag <= 255)
+//@   assigns @pos, @E
+//@   let tagAvail = flag != -1 || old(@pos) < len(@in)
+//@   let tag      = ite(flag == -1, @in[old(@pos)], byte(flag))
+//@   let body     = ite(flag == -1, old(@pos) + 1, old(@pos))
+//@   let fits     = tagAvail && G.isDate(tag) && body + G.dateRest(tag) <= len(@in)
+//@   ensures [C10,C01:date-dialect]   fits ==> err == nil && result0 == L.decDateT(tag, @in, body) && @pos == body + G.dateRest(tag)
+//@   ensures [C03:date-any-form-2.0]  fits ==> err == nil && result0 == G.decDateT(tag, @in, body)
+//@   ensures [C14,C03:date-reject]    !fits ==> err != nil
